@@ -112,6 +112,7 @@ type Exec struct {
 	pools      map[*Cell][]Value // sync.Pool contents (per path)
 	conds      map[*Cell]*condState
 	globalRnd  *Cell // math/rand's process-global source (per path)
+	negTimer   *Term // disjunction: some timer was armed (NewTimer/Reset) with a negative delay
 	inStringer int // nesting of String()/Error() calls made on behalf of formatting
 	utf8ok     map[*Term]*Term
 	atomVCs    map[*Cell]*VC
